@@ -4,8 +4,12 @@ from lib import coq_list as L, coq_Z as Z
 THEOREMS = ['C09_small_factors_spec', 'C09_repeat', 'C09_repeat_language', 'C09_opt', 'C09_plus', 'C09_star',
             'C09_language_of_counts', 'C09_helpers_inlined', 'C09_example',
             'C09_compile_preserves_language', 'C09_compile_pruned_preserves_language', 'C09_compile_total',
-            'C09_compile_example', 'C09_compile_example_sentence']
-GEN_DEPS = ['Consts', 'SmallFactors']
+            'C09_compile_example', 'C09_compile_example_sentence',
+            'C09_terminal_repeat_exact', 'C09_terminal_exact_exact', 'C09_terminal_opt_exact', 'C09_terminal_star_exact',
+            'C09_terminal_plus_exact', 'C09_terminal_definition_exact', 'C09_terminal_match_sound',
+            'C09_terminal_match_none', 'C09_terminal_regexp_string', 'C09_re_match_sound', 'C09_re_match_none',
+            'C09_re_fullmatch', 'C09_terminal_example']
+GEN_DEPS = ['Consts', 'SmallFactors', 'RegexHoles']
 RULE = ('(a) small_factors(n, mf) for sampled n <= 2000 and mf in 3..9 against the regenerated Gallina function; '
         '(b) EBNF_to_BNF._generate_repeats(x, n, m) helper-rule structure (helpers inlined to a tree) against '
         'Ebnf/Repeat.generate_repeats for sampled 0<=n<=m incl. all m in 46..54; (c) end-to-end: grammars with '
@@ -18,8 +22,20 @@ RULE = ('(a) small_factors(n, mf) for sampled n <= 2000 and mf in 3..9 against t
         'acceptance by Earley of all words up to length 5 equals the stated-count meaning of the expression; '
         'shared-operand: the same operand under 2-3 operators in one rule and across rules, both orders: acceptance of '
         'every combination of 0..7 occurrences per site equals the count oracle. '
+        'nested-operators: operator over group over operator, 13 inner x 6 outer operators incl. factored repeats '
+        '(N >= 50) as group bodies, plain / double group / trailing symbol / sequence operand / three levels: compiled '
+        'rules vs the model and acceptance of 0-3 blocks with inner counts at the bounds and one off; '
+        'terminal-model: terminal definitions (operators x operand kinds, ordered pairs of alternatives with prefix '
+        'relations, every regexp-special character in a literal, terminal references; random nested definitions in the '
+        'thorough tier): lark\'s own terminal tree -> Re/TermPattern.compile must give lark\'s Pattern kind, value, '
+        'to_regexp(), min/max width; re.match end / re.fullmatch on lark\'s regexp == Re/Lang.bt_match / bt_fullmatch on '
+        'sampled and near-miss inputs (n-1, m+1 occurrences); '
         'non-trivial = distinct (n,m) with m >= 2 / distinct (grammar,k)')
-TRUSTED_BASE = ['hand model Ebnf/Compile.v of EBNF_to_BNF (expr, rules_cache, _add_rule, _add_recurse_rule, _add_repeat_rule, '
+TRUSTED_BASE = ['hand model Re/Lang.bt of Python re (sre) matching order on the AST of the compiled regexp, and of sre_parse getwidth '
+                '(Re/Width.v): tied by comparison of re.match/re.fullmatch/min_width/max_width on generated inputs; re.escape '
+                'is modelled by hand (Re/Syntax.re_escape); TerminalTreeToPattern format strings and sort key regenerated '
+                '(Gen/RegexHoles.v), its shape pinned by translator/gen_regex.py',
+                'hand model Ebnf/Compile.v of EBNF_to_BNF (expr, rules_cache, _add_rule, _add_recurse_rule, _add_repeat_rule, '
                 '_add_repeat_opt_rule, _generate_repeats) + SimplifyRule_Visitor + unused-rule filter, tied by comparison '
                 'of the compiled rule sets up to helper renaming',
                 'hand model Ebnf/Repeat.v of _add_repeat_rule/_add_repeat_opt_rule/_generate_repeats/expr (tied by '
@@ -649,6 +665,10 @@ def correspond(ctx):
     # (d) operators inside terminals -------------------------------------------------------
     terminal_stream(ctx)
     mark('d')
+    # (d') the regular-expression level inside the model: TerminalTreeToPattern + re against coq/Re/
+    from props import C09_regex
+    C09_regex.run(ctx)
+    mark('d-model')
     # (e) the EBNF-to-BNF compilation as a whole ------------------------------------------------
     import time
     t0 = time.time()
@@ -683,9 +703,13 @@ def replay(ctx, case):
             return not w['expect_error']
     if 'word' in w:
         import re
-        from lark import Lark
-        p = Lark(w['grammar'], parser='lalr')
-        td = [t for t in p.terminals if t.name == 'T'][0]
+        from lark.load_grammar import load_grammar
+        g, _ = load_grammar(w['grammar'], '<replay>', [], False)
+        try:
+            terms, _r, _i = g.compile(['start'], set())
+        except Exception:
+            return True
+        td = [t for t in terms if t.name == 'T'][0]
         return (re.fullmatch(td.pattern.to_regexp(), w['word']) is not None) != w['expected_match']
     if 'grammar' in w and 'text' in w:
         from lark import Lark
